@@ -45,6 +45,11 @@ type cache struct {
 	lruInternalPos *list.Element
 	lruLeaf        *list.List
 	lruLeafPos     *list.Element
+
+	// inUse is the set of pointers that have been dereferenced by the operation that is currently
+	// in progress. The operation still holds the nodes behind these pointers (and relies on the
+	// path that leads to them), so they must not be evicted until the next operation starts.
+	inUse map[*node.Pointer]struct{}
 }
 
 // MaxPrefetchDepth is the maximum depth of the prefeteched tree.
@@ -58,6 +63,7 @@ func newCache(ndb db.NodeDB, rs syncer.ReadSyncer, rootType node.RootType) *cach
 		lruLeaf:       list.New(),
 		valueCapacity: 16 * 1024 * 1024,
 		nodeCapacity:  5000,
+		inUse:         make(map[*node.Pointer]struct{}),
 	}
 	// By default the sync root is an empty root.
 	c.syncRoot.Empty()
@@ -75,6 +81,7 @@ func (c *cache) close() {
 	c.lruInternalPos = nil
 	c.lruLeaf = nil
 	c.lruLeafPos = nil
+	c.inUse = nil
 
 	// Reset sync root.
 	c.syncRoot = node.Root{}
@@ -120,6 +127,10 @@ func (c *cache) newInternalNodePtr(n *node.InternalNode) *node.Pointer {
 }
 
 func (c *cache) newInternalNode(label node.Key, labelBitLength node.Depth, leafNode, left, right *node.Pointer) *node.Pointer {
+	if leafNode != nil {
+		// The new node is dirty, its leaf node must stay available (see rollbackNode).
+		c.rollbackNode(leafNode)
+	}
 	return c.newInternalNodePtr(&node.InternalNode{
 		Label:          label,
 		LabelBitLength: labelBitLength,
@@ -149,8 +160,44 @@ func (c *cache) useNode(ptr *node.Pointer) {
 // This makes it possible to keep the path from the root to the derefed
 // node in the cache instead of evicting it.
 func (c *cache) markPosition() {
+	c.beginOperation()
+
 	c.lruInternalPos = c.lruInternal.Front()
 	c.lruLeafPos = c.lruLeaf.Front()
+}
+
+// beginOperation marks the start of a new tree operation. Nodes dereferenced by the previous
+// operation are no longer held by anyone and become eligible for eviction again.
+func (c *cache) beginOperation() {
+	clear(c.inUse)
+}
+
+// markInUse records that the operation in progress holds the node behind the given pointer.
+func (c *cache) markInUse(ptr *node.Pointer) {
+	if ptr == nil || c.inUse == nil {
+		return
+	}
+	c.inUse[ptr] = struct{}{}
+}
+
+// holdsInUse returns true iff the cached subtree rooted at ptr contains a node that is held by
+// the operation in progress. Evicting such a subtree would cut the children off a node that the
+// operation still uses (or is about to modify).
+func (c *cache) holdsInUse(ptr *node.Pointer) bool {
+	if len(c.inUse) == 0 {
+		return false
+	}
+	if _, ok := c.inUse[ptr]; ok {
+		return true
+	}
+	if n, ok := ptr.Node.(*node.InternalNode); ok {
+		for _, child := range []*node.Pointer{n.LeafNode, n.Left, n.Right} {
+			if child != nil && child.Node != nil && c.holdsInUse(child) {
+				return true
+			}
+		}
+	}
+	return false
 }
 
 func (c *cache) tryCommitNode(ptr, lockedPtr *node.Pointer) error {
@@ -207,6 +254,12 @@ func (c *cache) commitNode(ptr *node.Pointer) {
 // rollbackNode marks a tree node as no longer being eligible for
 // eviction due to it becoming dirty.
 func (c *cache) rollbackNode(ptr *node.Pointer) {
+	if n, ok := ptr.Node.(*node.InternalNode); ok && n.LeafNode != nil {
+		// A dirty internal node cannot be fetched again, so the leaf node that is stored together
+		// with it must stay available for as long as the node is dirty.
+		c.rollbackNode(n.LeafNode)
+	}
+
 	if ptr.LRU == nil {
 		// Node has not yet been committed to cache.
 		return
@@ -306,11 +359,20 @@ func (c *cache) removeNode(ptr *node.Pointer) {
 
 // tryEvictLeaf tries to evict leaf nodes from the cache.
 func (c *cache) tryEvictLeaf(targetCapacity uint64, lockedPtr *node.Pointer) error {
-	for c.lruLeaf.Len() > 0 && c.valueSize+targetCapacity > c.valueCapacity {
+	// Nodes held by the operation in progress are kept (the capacity may be exceeded until the
+	// operation is done), every candidate is looked at once.
+	for attempts := c.lruLeaf.Len(); attempts > 0 && c.lruLeaf.Len() > 0 && c.valueSize+targetCapacity > c.valueCapacity; attempts-- {
 		elem := c.lruLeaf.Back()
 		n := elem.Value.(*node.Pointer)
 		if !n.Clean {
 			panic(fmt.Errorf("mkvs: tried to evict dirty node %v", n))
+		}
+		if lockedPtr != nil && holdsLocked(n, lockedPtr) {
+			return errRemoveLocked
+		}
+		if c.holdsInUse(n) {
+			c.lruLeaf.MoveToFront(elem)
+			continue
 		}
 		if err := c.tryRemoveNode(n, lockedPtr); err != nil {
 			return err
@@ -321,11 +383,20 @@ func (c *cache) tryEvictLeaf(targetCapacity uint64, lockedPtr *node.Pointer) err
 
 // tryEvictInternal tries to evict internal nodes from the cache.
 func (c *cache) tryEvictInternal(targetCapacity uint64, lockedPtr *node.Pointer) error {
-	for c.lruInternal.Len() > 0 && c.internalNodeCount+targetCapacity > c.nodeCapacity {
+	// Nodes held by the operation in progress, and the nodes above them, are kept (the capacity
+	// may be exceeded until the operation is done), every candidate is looked at once.
+	for attempts := c.lruInternal.Len(); attempts > 0 && c.lruInternal.Len() > 0 && c.internalNodeCount+targetCapacity > c.nodeCapacity; attempts-- {
 		elem := c.lruInternal.Back()
 		n := elem.Value.(*node.Pointer)
 		if !n.Clean {
 			panic(fmt.Errorf("mkvs: tried to evict dirty node %v", n))
+		}
+		if lockedPtr != nil && holdsLocked(n, lockedPtr) {
+			return errRemoveLocked
+		}
+		if c.holdsInUse(n) {
+			c.lruInternal.MoveToFront(elem)
+			continue
 		}
 		if err := c.tryRemoveNode(n, lockedPtr); err != nil {
 			return err
@@ -352,6 +423,8 @@ func (c *cache) derefNodePtr(
 	}
 
 	c.useNode(ptr)
+	// The caller is going to hold the node, make sure it is not evicted under it.
+	c.markInUse(ptr)
 
 	if ptr.Node != nil {
 		var refetch bool
@@ -360,8 +433,16 @@ func (c *cache) derefNodePtr(
 			// If this is an internal node, check if the leaf node has been evicted.
 			// In this case treat it as if we need to re-fetch the node.
 			if n.LeafNode != nil && n.LeafNode.Node == nil {
+				if !ptr.Clean {
+					// A dirty node cannot be fetched again. Its leaf node is kept in the cache
+					// for as long as the node is dirty, so this should never happen.
+					return nil, fmt.Errorf("mkvs: leaf node of a modified internal node is not available")
+				}
 				c.removeNode(ptr)
 				refetch = true
+			} else {
+				// The leaf node is always included with the internal node.
+				c.markInUse(n.LeafNode)
 			}
 		}
 
@@ -396,6 +477,11 @@ func (c *cache) derefNodePtr(
 		}
 	default:
 		return nil, err
+	}
+
+	if n, ok := ptr.Node.(*node.InternalNode); ok {
+		// The leaf node is always included with the internal node.
+		c.markInUse(n.LeafNode)
 	}
 
 	return ptr.Node, nil
